@@ -4,6 +4,8 @@ import RbV.Spec.Gc
 import RbV.Ref.Complement
 import RbV.Model.OrfScan
 import RbV.Lemmas.OrfScan
+import RbV.Lemmas.OrfScanP
+import RbV.Thm.GenSrcOrf
 /-!
 # C20 — ORF finder, complements, alphabets / rank transform, GC content
 
@@ -245,6 +247,87 @@ theorem orf_model_accepted (seq : List Nat) (starts stops : List (List Nat)) (mi
 example : Model.OrfScan.findAll [[65, 84, 71]] [[84, 65, 65], [84, 65, 71]] 0
     [65, 84, 71, 65, 84, 71, 65, 65, 65, 84, 65, 65, 71, 65, 84, 71, 84, 65, 71] = [(0, 12, 0), (3, 12, 0), (13, 19, 1)] := by
   decide +kernel
+
+/-! ## The source text of `Matches::next` (translated on every run, `Gen/SrcOrf.lean`)
+
+`tools/rs2lean.py` translates the text of `Matches::next` into `Gen.SrcOrf.next` (+ loop helpers) and the length test of
+its flush loop into `Gen.SrcOrf.next_lenTest`; `GenSrcOrf.collect T …` calls the translated `next` (with length test `T`)
+until it returns `None`, as `Iterator::collect` does.  `Rs.Res.ok v` = no panic, no loop ran out of fuel, result `v`.
+The property leaves frames of length `minLen … minLen + 2` free; accordingly the tie is stated for *every* length test
+inside that freedom (`Model.OrfScan.LenTestOk`), and the test found in the source is shown to be inside it. -/
+
+/-- **The ORF mirror model is sound and complete for every length test inside the freedom of the property.**
+`findAllP P` is the mirror model of `Matches::next` whose flush loop uses the test `P index start_pos`; if `P` accepts
+every frame longer than `minLen + 2` and only frames at least `minLen` long, the oracle accepts the model's answer
+(every reported triple is an ORF of length ≥ `minLen` with offset `start % 3`, none twice, every ORF longer than
+`minLen + 2` is reported). -/
+theorem orf_model_any_test_accepted (seq : List Nat) (starts stops : List (List Nat)) (minLen : Nat)
+    (P : Nat → Nat → Bool) (hP : Model.OrfScan.LenTestOk P minLen seq.length)
+    (h3s : ∀ c ∈ starts, c.length = 3) (h3p : ∀ c ∈ stops, c.length = 3) (hd : ∀ c ∈ starts, c ∉ stops) :
+    Orf.acceptOrf seq starts stops minLen (Model.OrfScan.findAllP P starts stops seq) = true := by
+  obtain ⟨hm0, hn0⟩ := orf_sound_complete seq starts stops 0 h3s h3p hd
+  obtain ⟨hm, _⟩ := orf_sound_complete seq starts stops minLen h3s h3p hd
+  have hsub0 := Lemmas.OrfScanP.findAllP_sublist_all h3s P seq (stops := stops)
+  have hsub := Lemmas.OrfScanP.findAll_sublist_findAllP h3s P minLen seq hP (stops := stops)
+  rw [acceptOrf_iff]
+  refine ⟨?_, hsub0.nodup hn0, ?_⟩
+  · intro t ht
+    obtain ⟨h1, _, h3⟩ := (hm0 t).mp (hsub0.subset ht)
+    exact ⟨h1, Lemmas.OrfScanP.findAllP_len h3s P minLen seq hP t ht, h3⟩
+  · intro s e hio hlen
+    exact hsub.subset ((hm (s, e, s % 3)).mpr ⟨hio, hlen, rfl⟩)
+
+/-- **`Matches::next` as written in the source = the mirror model** (`orf_next_source_eq_model`): for every length test
+`T` that computes `P` on the arguments the loop passes, calling the translated `next` on a fresh iterator until it
+returns `None` never panics and yields exactly `findAllP P` — all sequences shorter than `2^64 - 1`, all codon sets with
+three-symbol start codons, every `minLen`. -/
+theorem orf_next_source_eq_model (T : Nat → Nat → Nat → Rs.Res Bool) (P : Nat → Nat → Bool)
+    (seq : List Nat) (starts stops : List (List Nat)) (minLen : Nat)
+    (hT : GenSrcOrf.TestIs T P minLen seq.length) (h3s : ∀ c ∈ starts, c.length = 3) (hlen : seq.length + 1 < 2 ^ 64)
+    (fuel : Nat) (hf : (Model.OrfScan.findAllP P starts stops seq).length < fuel) :
+    GenSrcOrf.collect T starts stops minLen fuel [[], [], []] [] [] (GenSrcOrf.enumFrom 0 seq)
+      = Rs.Res.ok (Model.OrfScan.findAllP P starts stops seq) :=
+  GenSrcOrf.collect_findAllP T P starts stops minLen seq hT h3s hlen fuel hf
+
+/-- the length test found in the source text never panics on the arguments the loop passes and lies inside the freedom
+of the property: it accepts every frame longer than `minLen + 2` and only frames at least `minLen` long -/
+theorem orf_length_test_source_in_slack (minLen B : Nat) (hB : B + 2 < 2 ^ 64) :
+    GenSrcOrf.TestIs Gen.SrcOrf.next_lenTest (GenSrcOrf.srcTest minLen) minLen B ∧
+    Model.OrfScan.LenTestOk (GenSrcOrf.srcTest minLen) minLen B :=
+  ⟨GenSrcOrf.srcTest_is minLen B hB, GenSrcOrf.srcTest_ok minLen B hB⟩
+
+/-- **The source text of `Matches::next` is sound and complete**: iterating the *translated* `next` (with the length
+test of the source) over any sequence shorter than `2^64 - 2` yields a list the oracle accepts. -/
+theorem orf_next_source_accepted (seq : List Nat) (starts stops : List (List Nat)) (minLen : Nat)
+    (h3s : ∀ c ∈ starts, c.length = 3) (h3p : ∀ c ∈ stops, c.length = 3) (hd : ∀ c ∈ starts, c ∉ stops)
+    (hlen : seq.length + 2 < 2 ^ 64) :
+    ∃ out, (∀ fuel, out.length < fuel →
+        GenSrcOrf.collect Gen.SrcOrf.next_lenTest starts stops minLen fuel [[], [], []] [] [] (GenSrcOrf.enumFrom 0 seq)
+          = Rs.Res.ok out) ∧
+      Orf.acceptOrf seq starts stops minLen out = true := by
+  obtain ⟨h1, h2⟩ := orf_length_test_source_in_slack minLen seq.length hlen
+  exact ⟨_, fun fuel hf => orf_next_source_eq_model _ _ seq starts stops minLen h1 h3s (by omega) fuel hf,
+    orf_model_any_test_accepted seq starts stops minLen _ h2 h3s h3p hd⟩
+
+/-- with the length test of the pinned text (`index + 1 - start_pos > min_len`) the translated `next` yields exactly
+what the mirror model `findAll` — the one the driver runs next to the code on every case — yields -/
+theorem orf_next_source_pinned_test_eq_findAll (T : Nat → Nat → Nat → Rs.Res Bool)
+    (seq : List Nat) (starts stops : List (List Nat)) (minLen : Nat)
+    (hT : GenSrcOrf.TestIs T (Model.OrfScan.pinnedTest minLen) minLen seq.length)
+    (h3s : ∀ c ∈ starts, c.length = 3) (hlen : seq.length + 1 < 2 ^ 64)
+    (fuel : Nat) (hf : (Model.OrfScan.findAll starts stops minLen seq).length < fuel) :
+    GenSrcOrf.collect T starts stops minLen fuel [[], [], []] [] [] (GenSrcOrf.enumFrom 0 seq)
+      = Rs.Res.ok (Model.OrfScan.findAll starts stops minLen seq) := by
+  rw [Model.OrfScan.findAll_eq_findAllP] at hf ⊢
+  exact orf_next_source_eq_model T _ seq starts stops minLen hT h3s hlen fuel hf
+
+-- non-vacuity: the translated `next` on ATG ATG AAA TAA G ATG TAG, min_len 0 and 9 (the frame 3..12 has length 9:
+-- inside the slack for min_len 9, the source's test drops it, the oracle accepts either)
+example : GenSrcOrf.collect Gen.SrcOrf.next_lenTest [[65, 84, 71]] [[84, 65, 65], [84, 65, 71]] 9 9 [[], [], []] [] []
+    (GenSrcOrf.enumFrom 0 [65, 84, 71, 65, 84, 71, 65, 65, 65, 84, 65, 65, 71, 65, 84, 71, 84, 65, 71])
+    = Rs.Res.ok [(0, 12, 0)] := by decide +kernel
+example : Orf.acceptOrf [65, 84, 71, 65, 84, 71, 65, 65, 65, 84, 65, 65, 71, 65, 84, 71, 84, 65, 71]
+    [[65, 84, 71]] [[84, 65, 65], [84, 65, 71]] 9 [(0, 12, 0), (3, 12, 0)] = true := by decide +kernel
 
 /-! ## GC content -/
 
